@@ -198,9 +198,11 @@ class Family:
                             "got": verdict, "output": out[:400]})
         return n, bad
 
-    def as_replay(self, prefix=""):
+    def as_replay(self, prefix="", only=None):
         def f(model):
             n, bad = self.run()
+            if only is not None:
+                bad = [b for b in bad if any(b["role"].startswith(o) for o in only)]
             if bad:
                 b = bad[0]
                 return {"reproduced": True, "role": prefix + b["role"], "detail":
@@ -239,3 +241,110 @@ def no_panic(run, oid, desc, ex, ends, hyp, names, replay, functions=None, prefe
         run.samples.append({"obligation": ob.id, "panic_sites": sorted({p.detail for p in pan})[:6],
                             "normal_paths": len(good)})
     return ob
+
+
+# ------------------------------------------------------------------------------------------------
+# source layout helpers (field orders of structs / enum variants from the current source)
+
+import re as _re
+import srcsym as _srcsym
+
+_LAYOUT = {}
+
+
+def rust_struct(rel, name):
+    """Field names of `struct name {..}` in declaration order (= MIR field indices)."""
+    key = ("s", rel, name)
+    if key not in _LAYOUT:
+        src = _srcsym.strip_comments(common.read_repo(rel))
+        m = _re.search(r"\bstruct\s+%s\b[^{;]*\{" % _re.escape(name), src)
+        if not m:
+            raise Unsupported(f"struct {name} not found in {rel}")
+        i = m.end() - 1
+        j = _srcsym.match_close(src, i)
+        body = _re.sub(r"#\[[^\]]*\]", "", src[i + 1:j])
+        fields = []
+        for it in _srcsym.split_top(body):
+            fm = _re.match(r"^\s*(?:pub(?:\([^)]*\))?\s+)?(\w+)\s*:", it)
+            if fm:
+                fields.append(fm.group(1))
+        _LAYOUT[key] = fields
+    return _LAYOUT[key]
+
+
+def rust_enum(rel, name):
+    """{variant: [field names] | int (tuple arity) | None} in declaration order."""
+    key = ("e", rel, name)
+    if key not in _LAYOUT:
+        src = _srcsym.strip_comments(common.read_repo(rel))
+        m = _re.search(r"\benum\s+%s\b[^{;]*\{" % _re.escape(name), src)
+        if not m:
+            raise Unsupported(f"enum {name} not found in {rel}")
+        i = m.end() - 1
+        j = _srcsym.match_close(src, i)
+        body = _re.sub(r"#\[[^\]]*\]", "", src[i + 1:j])
+        out = {}
+        for it in _srcsym.split_top(body):
+            vm = _re.match(r"^\s*(\w+)\s*(.*)$", it, _re.S)
+            if not vm:
+                continue
+            rest = vm.group(2).strip()
+            if rest.startswith("{"):
+                inner = rest[1:_srcsym.match_close(rest, 0)]
+                out[vm.group(1)] = [_re.match(r"^\s*(\w+)\s*:", f).group(1) for f in _srcsym.split_top(inner) if _re.match(r"^\s*(\w+)\s*:", f)]
+            elif rest.startswith("("):
+                inner = rest[1:_srcsym.match_close(rest, 0)]
+                out[vm.group(1)] = len(_srcsym.split_top(inner))
+            else:
+                out[vm.group(1)] = None
+        _LAYOUT[key] = out
+    return _LAYOUT[key]
+
+
+def mk_struct(rel, name, values, tyname=None):
+    fields = rust_struct(rel, name)
+    missing = [f for f in fields if f not in values]
+    extra = [f for f in values if f not in fields]
+    if missing or extra:
+        raise Unsupported(f"struct {name}: fields changed (missing {missing}, unknown {extra})")
+    return Agg(tyname or name, None, [values[f] for f in fields], fields)
+
+
+def mk_variant(rel, enum, variant, values):
+    lay = rust_enum(rel, enum).get(variant, "?")
+    if lay == "?":
+        raise Unsupported(f"{enum}::{variant} not found")
+    if lay is None:
+        return Agg(enum, variant, [])
+    if isinstance(lay, int):
+        if len(values) != lay:
+            raise Unsupported(f"{enum}::{variant} arity changed")
+        return Agg(enum, variant, list(values))
+    missing = [f for f in lay if f not in values]
+    extra = [f for f in values if f not in lay]
+    if missing or extra:
+        raise Unsupported(f"{enum}::{variant}: fields changed (missing {missing}, unknown {extra})")
+    return Agg(enum, variant, [values[f] for f in lay], lay)
+
+
+def opq(name, ty="?"):
+    return Opq(z3.Const(name, Val), ty)
+
+
+def sym_option(name, payload, ty="Option"):
+    """Option value with a free discriminant and the given Some payload."""
+    some = z3.Bool(name + ".is_some")
+    v = Opq(z3.Const(name, Val), ty, {("d",): z3.If(some, z3.IntVal(1), z3.IntVal(0)),
+                                      ("v", "Some"): Agg("Option", "Some", [payload])})
+    return v, some
+
+
+def calls(p, name):
+    return [ev for ev in p.events if ev["name"] == name]
+
+
+def result_kind(p):
+    """'Ok' | 'Err' | None for a return path whose value is a Result aggregate."""
+    if p.kind == "return" and isinstance(p.ret, Agg) and p.ret.ty == "Result":
+        return p.ret.variant
+    return None
